@@ -448,6 +448,13 @@ def gen_text(thorough=False):
         vmdk_descriptor() + '#' * 600 + '\n').encode()
     yield 'text descriptor monolithicFlat', (
         vmdk_descriptor('monolithicFlat') + '#' * 600 + '\n').encode()
+    # text descriptors around the 64-byte header minimum: with fewer bytes
+    # the stream is never a VMDK, with 64 or more (all text, createType
+    # present) it is
+    short = b'createType="monolithicSparse"\n'
+    for n in (40, 63, 64, 65, 100):
+        yield 'text descriptor of %d bytes' % n, (short + b'#' * n)[:n - 1] \
+            + b'\n'
     yield 'plain text 2000', b'hello world\n' * 170
     yield 'text then high byte', b'a' * 600 + b'\xff' + b'text' * 100
     yield 'zeros 4096', b'\x00' * 4096
@@ -512,4 +519,26 @@ def polyglots():
         put(img, *sigs['vmdk'])
         put(img, *sigs['iso'])
         out.append(('signatures vmdk+iso on %s' % bname, bytes(img)))
+    # near signatures: sibling magic numbers of the same standards and
+    # one-byte neighbours of the real ones; none of them is the format
+    near = [
+        ('iso', 32769, x) for x in (b'BEA01', b'TEA01', b'NSR01', b'BOOT2',
+                                    b'CDW02', b'CD002', b'cd001')] + [
+        ('qcow2', 0, b'QFI\xfa\x00\x00\x00\x03'),
+        ('qcow2', 0, b'QFI\x00'), ('qed', 0, b'QED\x01'),
+        ('qed', 0, b'QEVM'), ('vhd', 0, b'conectiX'),
+        ('vhd', 0, b'Conectix'), ('vhdx', 0, b'vhdxfilf'),
+        ('vhdx', 0, b'VHDXFILE'), ('luks', 0, b'LUKS\xba\xbf\x00\x01'),
+        ('luks', 0, b'LUKS\x00\x00\x00\x01'), ('vmdk', 0, b'KDMW'),
+        ('vmdk', 0, b'VMDK'), ('vmdk', 0, b'COWD'),
+        ('vdi', 0x40, struct.pack('<I', 0xbeda1080)),
+        ('vdi', 0x40, struct.pack('>I', 0xbeda107f)),
+        ('gpt', 510, b'\xaa\x55'), ('gpt', 510, b'\x55\xab'),
+        ('gpt', 511, b'\x55\xaa'), ('gpt', 512, b'EFI PART')]
+    for fmt, off, magic in near:
+        for bname, bg in (('zeros', bytes(base)),) + backgrounds[1:]:
+            img = bytearray(bg)
+            put(img, off, magic)
+            out.append(('near-signature of %s %r at %d on %s' % (
+                fmt, magic, off, bname), bytes(img)))
     return out
